@@ -1,8 +1,8 @@
 SPECIFICATION Spec
 CONSTANTS
   MECH = "intent"
-  YV = {"none", "one", "str"}
-  PV = {"none", "one", "rx1", "rxstr"}
+  YV = {"none", "one"}
+  PV = {"none", "rx1"}
   LV = {"none", "one"}
 INVARIANT TypeOK
 INVARIANT I_Function
